@@ -319,3 +319,110 @@ theorem holesFrom_sortHoles (l : List Hole)
   intro a b _ hb hab
   have := hpos b (hperm.mem_iff.1 hb)
   omega
+
+/-! ### punching = removing the bytes whose index lies in a hole -/
+
+theorem inHole_false_before : ∀ (hs : List Hole) (L k : Nat), HolesFrom L hs → k < L → inHole hs k = false
+  | [], _, _, _, _ => rfl
+  | h :: rest, L, k, hf, hk => by
+    obtain ⟨h1, h2⟩ := hf
+    rw [inHole_cons, inHole_false_before rest (h.1 + h.2) k h2 (by omega)]
+    simp only [Bool.or_false, decide_eq_false_iff_not]
+    omega
+
+theorem removeFrom_congr {α : Type} (hs hs' : List Hole) : ∀ (data : List α) (i : Nat),
+    (∀ k, k < data.length → inHole hs (i + k) = inHole hs' (i + k)) → removeFrom hs i data = removeFrom hs' i data
+  | [], _, _ => rfl
+  | b :: rest, i, h => by
+    have h0 := h 0 (by simp)
+    simp only [Nat.add_zero] at h0
+    have ih := removeFrom_congr hs hs' rest (i + 1) (fun k hk => by
+      have := h (k + 1) (by simp only [List.length_cons]; omega)
+      rwa [show i + (k + 1) = i + 1 + k by omega] at this)
+    simp only [removeFrom, h0, ih]
+
+theorem removeFrom_append {α : Type} (hs : List Hole) : ∀ (a b : List α) (i : Nat),
+    removeFrom hs i (a ++ b) = removeFrom hs i a ++ removeFrom hs (i + a.length) b
+  | [], b, i => by simp [removeFrom]
+  | x :: a, b, i => by
+    have ih := removeFrom_append hs a b (i + 1)
+    simp only [List.cons_append, removeFrom, List.length_cons, ih]
+    rw [show i + 1 + a.length = i + (a.length + 1) by omega]
+    split <;> simp
+
+theorem removeFrom_none {α : Type} (hs : List Hole) : ∀ (data : List α) (i : Nat),
+    (∀ k, k < data.length → inHole hs (i + k) = false) → removeFrom hs i data = data
+  | [], _, _ => rfl
+  | b :: rest, i, h => by
+    have h0 := h 0 (by simp)
+    simp only [Nat.add_zero] at h0
+    have ih := removeFrom_none hs rest (i + 1) (fun k hk => by
+      have := h (k + 1) (by simp only [List.length_cons]; omega)
+      rwa [show i + (k + 1) = i + 1 + k by omega] at this)
+    simp [removeFrom, h0, ih]
+
+theorem removeFrom_all {α : Type} (hs : List Hole) : ∀ (data : List α) (i : Nat),
+    (∀ k, k < data.length → inHole hs (i + k) = true) → removeFrom hs i data = []
+  | [], _, _ => rfl
+  | b :: rest, i, h => by
+    have h0 := h 0 (by simp)
+    simp only [Nat.add_zero] at h0
+    have ih := removeFrom_all hs rest (i + 1) (fun k hk => by
+      have := h (k + 1) (by simp only [List.length_cons]; omega)
+      rwa [show i + (k + 1) = i + 1 + k by omega] at this)
+    simp [removeFrom, h0, ih]
+
+/-- a section's data cut at a hole -/
+theorem split3 (data : List Nat) (a b : Nat) (h : a + b ≤ data.length) :
+    data = data.take a ++ ((data.drop a).take b ++ data.drop (a + b)) ∧
+    (data.take a).length = a ∧ ((data.drop a).take b).length = b := by
+  refine ⟨?_, by simp only [List.length_take]; omega, by simp only [List.length_take, List.length_drop]; omega⟩
+  have e : data.drop (a + b) = (data.drop a).drop b := by rw [List.drop_drop]
+  rw [e, List.take_append_drop, List.take_append_drop]
+
+/-- THE DATA THEOREM: hole punching (last hole first, `pop` byte by byte) yields exactly the old data without
+    the bytes whose index lies in a hole -/
+theorem punch_eq_removeBytes : ∀ (hs : List Hole) (L : Nat) (data X : List Nat), HolesFrom L hs →
+    punch data hs = .ok X → X = removeBytes hs data
+  | [], _, data, X, _, hp => by
+    simp only [punch] at hp; cases hp
+    exact (removeFrom_none [] data 0 (fun _ _ => rfl)).symm
+  | h :: rest, L, data, X, hf, hp => by
+    have hw := punch_within (h :: rest) L data X hf hp
+    obtain ⟨h1, h2⟩ := hf
+    obtain ⟨X', hr, hb, rfl⟩ := punch_cons_ok hp
+    have ih := punch_eq_removeBytes rest (h.1 + h.2) data X' h2 hr
+    have hlen : h.1 + h.2 ≤ data.length := hw h (by simp)
+    obtain ⟨hsplit, lA, lB⟩ := split3 data h.1 h.2 hlen
+    generalize hA : data.take h.1 = A at hsplit lA
+    generalize hB : (data.drop h.1).take h.2 = B at hsplit lB
+    generalize hC : data.drop (h.1 + h.2) = C at hsplit
+    -- the later holes leave the first `h.1 + h.2` bytes alone
+    have e1 : X' = A ++ (B ++ removeFrom rest (h.1 + h.2) C) := by
+      rw [ih]
+      unfold removeBytes
+      rw [hsplit, removeFrom_append, removeFrom_append, lA, lB,
+        removeFrom_none rest A 0 (fun k hk => inHole_false_before rest _ _ h2 (by omega)),
+        removeFrom_none rest B (0 + h.1) (fun k hk => inHole_false_before rest _ _ h2 (by omega))]
+      simp
+    -- all holes on the old data
+    have e2 : removeBytes (h :: rest) data = A ++ removeFrom rest (h.1 + h.2) C := by
+      unfold removeBytes
+      rw [hsplit, removeFrom_append, removeFrom_append, lA, lB,
+        removeFrom_none (h :: rest) A 0 (fun k hk => by
+          rw [inHole_cons, inHole_false_before rest _ _ h2 (by omega)]
+          simp only [Bool.or_false, decide_eq_false_iff_not]; omega),
+        removeFrom_all (h :: rest) B (0 + h.1) (fun k hk => by
+          rw [inHole_cons]
+          simp only [Bool.or_eq_true, decide_eq_true_eq]; left; omega),
+        removeFrom_congr (h :: rest) rest C (0 + h.1 + h.2) (fun k _ => by
+          rw [inHole_cons]
+          have : decide (h.1 ≤ 0 + h.1 + h.2 + k ∧ 0 + h.1 + h.2 + k < h.1 + h.2) = false := by
+            simp only [decide_eq_false_iff_not]; omega
+          rw [this, Bool.false_or])]
+      simp
+    rw [e2, e1]
+    rw [List.take_append_of_le_length (by omega), List.take_of_length_le (by omega)]
+    rw [← List.append_assoc, List.drop_append_of_le_length (by simp only [List.length_append]; omega),
+      List.drop_of_length_le (by simp only [List.length_append]; omega)]
+    simp
